@@ -281,6 +281,20 @@ def collection_table(ctx: Ctx, I: Interp) -> None:
             continue
         ctx.check(is_resolved == dedup, "C10.dedup", f"dedup={dedup}: result is {'resolved' if dedup else 'the raw collection'}", where,
                   f"dedup={dedup} -> {short(v)}", f"with dedup={dedup} the result is {short(v)}")
+    # get_dependencies() without arguments reports the resolved list
+    for q_ in ("TagList.get_dependencies", "Tag.get_dependencies"):
+        f_ = prog.function(CORE, q_)
+        a_ = f_.args
+        dm = dict(zip([x.arg for x in a_.args][len(a_.args) - len(a_.defaults):], a_.defaults))
+        dm.update({x.arg: d for x, d in zip(a_.kwonlyargs, a_.kw_defaults) if d is not None})
+        dflt = None
+        try:
+            dflt = prog.fold(dm["dedup"], prog.core()) if "dedup" in dm else None
+        except Exception:
+            pass
+        ctx.check(dflt is True, "C10.dedup", f"{q_}() resolves by default (dedup=True)", f"{CORE}:{q_}", f"default dedup={dflt!r}",
+                  f"{q_}() called without arguments returns the unresolved collection (default dedup={dflt!r}): duplicates and lower versions are reported, "
+                  f"and HTMLDocument hoists them", witness="div(dep_v1, dep_v2).get_dependencies()")
     # Tag.get_dependencies forwards dedup
     fn2 = prog.function(CORE, "Tag.get_dependencies")
     w2 = f"{CORE}:Tag.get_dependencies"
@@ -507,8 +521,11 @@ def _validate_tables(ctx: Ctx, I: Interp) -> None:
             return next(iter(kw_.values()), None)
         ok = rec.iter_value is ld and len(calls) == 1 and calls[0].value and calls[0].value[0] is el and _second(calls[0]) is ra
         free = [a for a in l.atoms if isinstance(a[0], tuple) and a[0][0] not in ("loop",)]
+        ok = ok and l.kind in ("fall", "continue")      # ... and goes on to the next item
         ctx.check(ok and not free, "C10.valid", "_validate_dicts validates every item with the given key list", w2,
-                  f"{[repr(e)[:70] for e in calls]} {'when ' + str(free[0][0][0]) if free else ''}", "not every item of the list is validated with the required keys")
+                  f"{[repr(e)[:70] for e in calls]} -> {l.kind} {'when ' + str(free[0][0][0]) if free else ''}",
+                  "not every item of the list is validated with the required keys (the loop stops after an item, or skips some)",
+                  witness="HTMLDependency('a', '1', script=[{'src': 'ok.js'}, {'href': 'no-src.js'}])")
     ctx.min_count("_validate_dicts loop paths", n, 1)
 
 
